@@ -344,25 +344,38 @@ func (g *gen) ops() []Op {
 	n := g.rnd.Range(2, 8)
 	var out []Op
 	hid := 10
-	for i := 0; i < n; i++ {
+	reg := map[int]bool{} // keys probably registered so far (ignores failures: only steers the choice of keys)
+	pickKey := func(wantReg bool, pct int) int {
 		key := g.rnd.Intn(3)
+		if g.rnd.Pct(pct) {
+			for k := 0; k < 3; k++ {
+				if reg[(key+k)%3] == wantReg {
+					return (key + k) % 3
+				}
+			}
+		}
+		return key
+	}
+	for i := 0; i < n; i++ {
 		switch r := g.rnd.Intn(100); {
 		case r < 35:
 			hid++
+			key := pickKey(false, 75)
 			out = append(out, Op{Kind: "handle", Key: key, Hid: hid, Ms: g.ms(0, 3, 3)})
+			reg[key] = true
 		case r < 55:
 			hid++
-			out = append(out, Op{Kind: "update", Key: key, Hid: hid, Ms: g.ms(0, 3, 3)})
+			out = append(out, Op{Kind: "update", Key: pickKey(true, 80), Hid: hid, Ms: g.ms(0, 3, 3)})
 		case r < 88:
-			out = append(out, Op{Kind: "serve", Key: key, K: g.rnd.Intn(5)})
+			out = append(out, Op{Kind: "serve", Key: pickKey(true, 70), K: g.rnd.Intn(5)})
 		case r < 94:
-			out = append(out, Op{Kind: "rhandle", Key: key})
+			out = append(out, Op{Kind: "rhandle", Key: pickKey(true, 70)})
 		default:
-			out = append(out, Op{Kind: "rhandlemw", Key: key})
+			out = append(out, Op{Kind: "rhandlemw", Key: pickKey(true, 70)})
 		}
 	}
 	// closing sweep on one key: all five kinds and both direct calls
-	key := g.rnd.Intn(3)
+	key := pickKey(true, 85)
 	for k := 0; k < 5; k++ {
 		out = append(out, Op{Kind: "serve", Key: key, K: k})
 	}
